@@ -1,7 +1,7 @@
 (* Correspondence checker for C15: a case is (history, per-operation observations on the real
    agg.Hub, the hub's rule table after every operation that is not a broadcast, whether the hub
-   goroutine died).  Observation of a broadcast = the sorted, duplicate-free
-   list of subscriber numbers whose channel the tagged message arrived on; [] for other operations.
+   goroutine died).  Observation of a broadcast = the sorted
+   list of subscriber numbers whose channel the tagged message arrived on, once per copy; [] for other operations.
    It passes when the model of the repaired hub (fx = true) produces the same. *)
 From Relay Require Import Base.Prelude Base.AList Model.Agg.
 
@@ -14,7 +14,8 @@ Fixpoint dedup (l : list N) : list N :=
   | x :: r => if existsb (N.eqb x) r then dedup r else x :: dedup r
   end.
 
-Definition proj (out : list client) : list N := sortN (dedup (map fst out)).
+(* one entry per copy delivered: a rule that names a feed twice delivers twice *)
+Definition proj (out : list client) : list N := sortN (map fst out).
 
 (* the rule table read after an operation (sorted by stream by the harness): same size as the
    model's table and every observed entry is in it (the model's keys are duplicate-free) *)
